@@ -772,16 +772,49 @@ func (r *runner) measureHC(i int, op Op, ms modelSnap, what func(string) string)
 		}
 		return m
 	}
+	// (credential, upstream) pairs no current endpoint object of that cluster uses any more: the stub must stop seeing
+	// /healthz with that credential (end to end: this is what "health probing of it stops" means on the wire)
+	type pair struct {
+		tok string
+		up  int
+	}
+	livePair, deadPair := map[pair]bool{}, map[pair]bool{}
+	for _, me := range ms.Eps {
+		if eo := w.eps[me.Id]; eo != nil {
+			p := pair{eo.owner.token, eo.up}
+			if me.HcLive {
+				livePair[p] = true
+			} else {
+				deadPair[p] = true
+			}
+		}
+	}
+	suspectPair := map[pair]bool{}
+	for p := range deadPair {
+		if !livePair[p] && !doneTokens[p.tok] {
+			suspectPair[p] = true
+		}
+	}
+	pairCount := func() map[pair]int {
+		m := map[pair]int{}
+		for p := range suspectPair {
+			m[p] = w.stubs[p.up].probeCount(p.tok)
+		}
+		return m
+	}
 	suspects := deadE
 	suspectTok := doneTokens
-	for round := 0; round < 5 && (len(suspects) > 0 || len(suspectTok) > 0); round++ {
+	for round := 0; round < 5 && (len(suspects) > 0 || len(suspectTok) > 0 || len(suspectPair) > 0); round++ {
 		r.st.deadChecks++
 		e0 := map[*epObj]int64{}
 		for _, eo := range suspects {
 			e0[eo] = atomic.LoadInt64(&eo.probeCalls)
 		}
 		t0 := tokenCount()
-		for _, eo := range suspects {
+		p0 := pairCount()
+		for _, eo := range deadE {
+			// every dead object is poked in every round (not only the still suspected ones): a loop that survived
+			// answers each poke with a probe, at the object and at the stub
 			eo.ptr.TriggerHealthCheck()
 		}
 		time.Sleep(quiet)
@@ -800,7 +833,17 @@ func (r *runner) measureHC(i int, op Op, ms modelSnap, what func(string) string)
 				nextTok[t] = true
 			}
 		}
-		suspects, suspectTok = next, nextTok
+		p1 := pairCount()
+		nextPair := map[pair]bool{}
+		for p := range suspectPair {
+			if p1[p] > p0[p] {
+				nextPair[p] = true
+			}
+		}
+		suspects, suspectTok, suspectPair = next, nextTok, nextPair
+	}
+	for p := range suspectPair {
+		r.fail("judge", "c15.probe-after-removal", what(fmt.Sprintf("stub upstream u%d keeps receiving /healthz probes with the credential %q although every endpoint object of that cluster for this upstream was removed or disabled", p.up, p.tok)), nil, nil)
 	}
 	for _, eo := range suspects {
 		eo.hcLive, eo.hcMeasured = true, true
